@@ -152,6 +152,36 @@ func lwWeather(start time.Time, n, variant int) []proj.Day {
 			case i%60 == 30:
 				w[i] = sigma["extreme"]
 			}
+		case 3: // cold wet year, dark spells
+			switch {
+			case i%9 < 3:
+				w[i] = c09Blocks["cool-wet"]
+			case doy > 330 || doy < 50:
+				w[i] = sigma["deep-frost"]
+			case i%40 == 7:
+				w[i] = sigma["no-sun-no-rad"]
+			}
+		case 4: // monthly alternation of extremes
+			switch (i / 30) % 4 {
+			case 0:
+				w[i] = c09Blocks["hot-drought"]
+			case 1:
+				w[i] = c09Blocks["waterlogged"]
+			case 2:
+				w[i] = c09Blocks["warm-dry"]
+			}
+			if i%30 == 29 {
+				w[i] = sigma["extreme"]
+			}
+		case 5: // a year without a real summer: calm, dark, saturated air
+			switch {
+			case i%5 == 0:
+				w[i] = sigma["zero-flux"]
+			case i%5 == 1:
+				w[i] = sigma["calm-dark"]
+			case i%23 == 4:
+				w[i] = sigma["heavy"]
+			}
 		case 2: // wet autumn, mild winter, showers
 			switch {
 			case doy >= 270 && doy < 320:
@@ -231,19 +261,19 @@ func lwBuild(sp lwSpec) *lwInfo {
 	return info
 }
 
-// lwSpecs: every world under weather variant (world + seed) mod 3 in the quick tier, under all three in the thorough tier.
+// lwSpecs: every world under weather variants 0-2 in the quick tier, under all six in the thorough tier.
 func lwSpecs(tier string, seed int, constGWOnly bool) []lwSpec {
 	var out []lwSpec
+	nv := 3
+	if tier == "thorough" {
+		nv = 6
+	}
 	for w, df := range lwDefs() {
 		if constGWOnly && (df.gh != 0 || len(df.series) > 0) && !df.constSeries {
 			continue
 		}
-		if tier == "thorough" {
-			for v := 0; v < 3; v++ {
-				out = append(out, lwSpec{World: w, Var: v})
-			}
-		} else {
-			out = append(out, lwSpec{World: w, Var: ((w+seed)%3 + 3) % 3})
+		for v := 0; v < nv; v++ {
+			out = append(out, lwSpec{World: w, Var: v})
 		}
 	}
 	return out
